@@ -469,14 +469,31 @@ def check_cse_scopes(idx: Index, rep: Report) -> None:
 
     r = rep.rule("C14.R9", "a nested CSE scope owns a copy of the enclosing table: operations recorded inside a region are forgotten when the region is left (they do not dominate what follows)", floor=2)
     drv = idx.func(CSE, "CSEDriver._simplify_region") if idx.try_func(CSE, "CSEDriver._simplify_region") else idx.func(CSE, "CSEDriver.simplify_region")
-    pushes = [n for n in walk_local(drv.raw_node) if isinstance(n, ast.Assign) and unparse(n.targets[0]) == "self._known_ops" and isinstance(n.value, ast.Call)]
+    blk = idx.try_func(CSE, "CSEDriver._simplify_block") or idx.func(CSE, "CSEDriver.simplify_block")
+
+    def _pushes(fn_):
+        return [n for n in walk_local(fn_) if isinstance(n, ast.Assign) and unparse(n.targets[0]) == "self._known_ops" and any(isinstance(c_, ast.Call) and unparse(c_.func) == "KnownOps" for c_ in ast.walk(n.value))]
+
+    region_scoped = bool(_pushes(drv.raw_node))
+    pushes = _pushes(drv.raw_node) + _pushes(blk.raw_node)
     if not pushes:
         raise AnalysisError(f"{drv.fq}: scope push `self._known_ops = <new scope>(...)` not found")
     for n in pushes:
-        ctor = unparse(n.value.func)
-        if ctor != "KnownOps" or [unparse(a) for a in n.value.args] not in (["self._known_ops"], []):
-            raise AnalysisError(f"{drv.fq}: scope push `{unparse(n)}` not understood")
+        for c_ in ast.walk(n.value):
+            if isinstance(c_, ast.Call) and unparse(c_.func) == "KnownOps" and [unparse(a) for a in c_.args] not in (["self._known_ops"], [], ["old_scope"]):
+                raise AnalysisError(f"{drv.fq}: scope push `{unparse(n)}` not understood")
         r.ok(f"{drv.fq}:push@{n.lineno}", f"{drv.loc} `{unparse(n)}`")
+    # every region of an operation gets its own scope: what one region records is not known in a sibling region
+    for w in walk_local(blk.raw_node):
+        if isinstance(w, ast.For) and re.fullmatch(r"\w+\.regions", unparse(w.iter)):
+            calls_ = [c_ for c_ in calls_in(w) if unparse(c_.func) in ("self._simplify_region", "self.simplify_region")]
+            if not calls_:
+                continue
+            inst = f"{blk.fq}:regions@{w.lineno}"
+            if region_scoped or _pushes(w):
+                r.ok(inst, f"{blk.module.relpath}:{w.lineno} one scope per region")
+            else:
+                r.fail(inst, Finding("C14.R9", blk.fq, "sibling-regions-share-scope", f"`{unparse(w).splitlines()[0]}` simplifies all regions of the operation in one scope (the scope is opened once per operation, and {drv.qualname} opens none): an expression recorded in the `then` region of an scf.if is 'known' in the `else` region, whose duplicate is replaced by a value that is never computed on that path", f"{blk.module.relpath}:{w.lineno}"))
     init = idx.func(CSE, "KnownOps.__init__")
     arg = init.node.args.args[1].arg
     seen = 0
@@ -501,6 +518,44 @@ def check_cse_scopes(idx: Index, rep: Report) -> None:
         raise AnalysisError(f"{init.fq}: no assignment of self._known_ops for a given parent scope")
 
 
+def check_select_patterns(idx: Index, rep: Report) -> None:
+    """select %c, K1, K0 over constants may be replaced by the condition itself (i1, K1 true, K0 false) or by its zero
+    extension (K1 == 1 and K0 == 0).  Truthiness of K1 is enough only for i1, where the only non-zero value is true."""
+    from ..paths import enum_paths
+
+    r = rep.rule("C14.R10", "select-of-constants patterns: the condition (or its zero / sign extension) replaces the select only under tests that pin the constants to the values the replacement produces", floor=1)
+    f = idx.func(CP, "SelectTrueFalsePattern.match_and_rewrite")
+    n = 0
+    for pth in enum_paths(f.node):
+        if not pth.feasible():
+            continue
+        nf = pth.nfacts()
+        for k, e_ in enumerate(pth.effects):
+            if not (isinstance(e_, ast.Expr) and isinstance(e_.value, ast.Call) and unparse(e_.value.func).startswith("rewriter.replace")):
+                continue
+            txt = pth.res(e_.value, k)
+            n += 1
+            inst = f"{f.fq}:{unparse(e_.value)[:50]}"
+            m_ = re.search(r"arith\.Ext(UI|SI)Op\(", txt)
+            i1 = any(p_ and re.search(r"== IntegerType\(1\)|== i1\b", t_) for t_, p_ in nf) or any((not p_) and re.search(r"!= IntegerType\(1\)|!= i1\b", t_) for t_, p_ in nf)
+            if m_:
+                want = "1" if m_.group(1) == "UI" else "-1"
+                pinned = any(p_ and re.search(rf"== {re.escape(want)}$", t_) for t_, p_ in nf)
+                if pinned:
+                    r.ok(inst, f"{f.loc} extension of the condition under `== {want}`")
+                else:
+                    r.fail(inst, Finding("C14.R10", f.fq, f"extension-for-any-nonzero:{m_.group(1)}", f"`{unparse(e_.value)[:80]}` replaces select %c, K, 0 by the {'zero' if m_.group(1) == 'UI' else 'sign'} extension of %c under {sorted(nf)[:4]}: nothing pins K to {want}, so select %c, 7, 0 : i32 becomes extui %c, which is 1", f"{f.module.relpath}:{e_.lineno}"))
+            elif re.search(r"\(op\.cond,\)|\[op\.cond\]", txt):
+                if i1:
+                    r.ok(inst, f"{f.loc} the condition replaces an i1 select")
+                else:
+                    r.fail(inst, Finding("C14.R10", f.fq, "condition-for-wide-select", f"`{unparse(e_.value)[:80]}` replaces the select by its i1 condition without the result type being tested to be i1", f"{f.module.relpath}:{e_.lineno}"))
+            else:
+                r.ok(inst, None)
+    if n == 0:
+        raise AnalysisError(f"{f.fq}: no replacement found")
+
+
 def check(idx: Index, rep: Report, tier: str) -> str:
     rep.run(check_truncation, idx, rep)
     rep.run(check_exceptions, idx, rep)
@@ -511,6 +566,7 @@ def check(idx: Index, rep: Report, tier: str) -> str:
     rep.run(check_int_division, idx, rep)
     rep.run(check_truth_propagation, idx, rep)
     rep.run(check_fastmath_guards, idx, rep)
+    rep.run(check_select_patterns, idx, rep)
     return (
         "Table-agreement and guard rules over arith's folders, the arith canonicalization patterns, constant-fold-interp, "
         "the constant-folding test pass and CSE: folded integers are truncated, fold patterns catch what the interpreter "
